@@ -8,7 +8,7 @@ from .imports import get_imports
 from .markers import get_markers
 from .pre import get_pre
 from .result import uses_result
-from .returns import get_returns, has_returns
+from .returns import get_returns, has_returns, is_generator
 from .value import UNKNOWN, get_value
 
 
@@ -25,6 +25,7 @@ __all__ = [
     'get_returns',
     'get_value',
     'has_returns',
+    'is_generator',
     'TOKENS',
     'uses_result',
     'UNKNOWN',
